@@ -1,5 +1,6 @@
 """C08 — coroutines advance one step per frame and wake exactly on time (spec/Coroutines.tla)."""
 from . import coroutines_common as cc
+from . import game_common as gm
 
 
 def run(res):
@@ -28,6 +29,10 @@ def run(res):
     Ka = dict(K, G=('m', 's', 'b'), Script={'m': (('y', 0), ('kill!', 2), ('start', 2), ('y', 0)), 's': (('y', 3), ('y', 0)), 'b': (('y', 0), ('y', 2), ('y', 0))},
               Dts={1, 2}, MaxTimer=8, WithKill=False)
     cc.check_and_replay(res, 'c08_restart_in_frame', Ka, depth_all=0, walks=1000, walk_len=30)
+    # composed end to end (spec/Game.tla): the dt comes from a real SimpleLoop, the coroutine sleeps in a real world
+    # that the loop leaves and re-enters (or discards: clear_current / clear_next): it wakes on *world time*
+    gm.check_and_replay(res, 'c08_world_time', gm.consts(MaxFrames=5 if th else 4), own={'ticks', 'order'},
+                        walks=3000 if th else 300)
     # (B) recorded executions: 7 coroutines with random scripts (waits up to 7, in-body start/kill), random schedules
     for i in range(4 if th else 2):
         res.seed += i
